@@ -212,8 +212,8 @@ def obligations(tier):
          [(1, 1), (1, 3), (2, 1), (2, 2), (2, 3), (2, 5), (3, 2), (3, 3), (3, 4), (3, 5), (4, 2), (4, 5), (2, [2, 2]), (3, [2, 2]), (3, [1, 2])]
     for n, k in tc:
         obs.append(TiledChoice(n=n, size=k))
-    ax = [((2, 2), 0), ((2, 2), 1), ((2, 3), [0]), ((3, 2), 1)] if tier == "quick" else \
-         [((2, 2), 0), ((2, 2), 1), ((2, 3), 0), ((2, 3), 1), ((3, 2), 0), ((3, 2), 1), ((2, 2), [0, 1]), ((2, 2, 2), 0), ((2, 2, 2), [0, 1]), ((2, 2, 2), 1), ((2, 3, 2), 2)]
+    ax = [((2, 2), 0), ((2, 2), 1), ((2, 3), [0]), ((3, 2), 1), ((2, 2, 2), [1, 0])] if tier == "quick" else \
+         [((2, 3, 2), [1, 0]), ((2, 2, 2), [2, 0]), ((2, 2, 2), [1, 0]), ((2, 2), 0), ((2, 2), 1), ((2, 3), 0), ((2, 3), 1), ((3, 2), 0), ((3, 2), 1), ((2, 2), [0, 1]), ((2, 2, 2), 0), ((2, 2, 2), [0, 1]), ((2, 2, 2), 1), ((2, 3, 2), 2)]
     for shp, axis in ax:
         obs.append(AxisShuffle(shape=list(shp), axis=axis))
     oc = [((2, 2), 2), ((2, 2), 3)] if tier == "quick" else [((2, 2), 2), ((2, 2), 3), ((2, 2), 4), ((3, 2), 3), ((2, 3), 3), ((1, 2), 2)]
